@@ -662,3 +662,16 @@ _NOT_CONSTANT = object()
 
 def is_single_valued(value: object) -> bool:
     return value is not _NOT_CONSTANT
+
+
+def param_by_annotation(func: FuncInfo, *fragments: str, exact: bool = False) -> Optional[str]:
+    """Name of the (first) parameter whose annotation text contains every fragment (or equals the single
+    fragment with ``exact``): parameters are identified by what they are, not by what they are called."""
+    arguments = func.node.args.posonlyargs + func.node.args.args + func.node.args.kwonlyargs  # type: ignore[attr-defined]
+    for argument in arguments:
+        if argument.annotation is None or argument.arg in ("self", "cls"):
+            continue
+        text = ast.unparse(argument.annotation)
+        if (exact and text == fragments[0]) or (not exact and all(fragment in text for fragment in fragments)):
+            return argument.arg
+    return None
